@@ -150,6 +150,9 @@ func timedOne(c *vlib.Ctx, kind int, r *vlib.Rand, pfx string, t int, variant st
 	} else {
 		c.SetAdd("tdelta_variants", fmt.Sprintf("%s/%s/delta=%dms", T, variant, delta))
 	}
+	if pfx != "timed" {
+		c.Eval(1) // a clock-delta case makes many judged gets; each is one evaluation
+	}
 	c.DistinctStr(fmt.Sprint(pfx, T, variant, t, caps, id, delta))
 	if t == 20 && wantSample(c, pfx) {
 		c.Sample(map[string]interface{}{"section": pfx, "case": detail})
